@@ -86,6 +86,9 @@ pub enum WOp {
     Hold,
     /// wait until this side's reader has read at least n bytes in total (or has finished)
     WaitRead(u64),
+    /// wait until no connection object is alive any more (at most 60 s), then make one more
+    /// write(1 byte), flush and shutdown to see what later calls report
+    ProbeAfterDeath,
 }
 
 #[derive(Clone, Debug, Serialize, Deserialize, PartialEq)]
@@ -97,6 +100,8 @@ pub enum ROp {
     PauseMs(u64),
     Drop,
     Hold,
+    /// wait until no connection object is alive any more (at most 60 s), then read once more
+    ProbeAfterDeath,
 }
 
 #[derive(Clone, Debug, Serialize, Deserialize, PartialEq)]
@@ -118,9 +123,16 @@ pub struct Scenario {
     pub app_a: AppScript,
     /// acceptor side application
     pub app_b: AppScript,
-    /// virtual-time watchdog for the whole run, seconds
+    /// virtual-time watchdog for the whole run (per cycle), seconds
     pub horizon_s: u64,
     pub rng_seed: u64,
+    /// number of connect/transfer/close cycles run back to back on the same socket pair
+    #[serde(default = "one")]
+    pub cycles: usize,
+}
+
+fn one() -> usize {
+    1
 }
 
 impl Scenario {
@@ -176,6 +188,11 @@ pub enum AppEv {
     ReadErr(String),
     ReaderDropped,
     ReaderScriptDone,
+    CycleStart(usize),
+    /// the previous cycle's connection objects were still alive after the release bound
+    CycleLeak { live: usize },
+    /// later calls follow; `dead` = no connection object was alive any more when they started
+    ProbePhase { dead: bool },
 }
 
 #[derive(Clone, Debug, Serialize)]
@@ -192,6 +209,7 @@ pub struct Recorder {
     pub accepted: [u64; 2],
     /// bytes returned by poll_read so far, per reading side [A, B]
     pub read: [u64; 2],
+    pub cycle_read_base: [u64; 2],
     pub reader_done: [bool; 2],
     pub writer_done: [bool; 2],
     /// woken whenever a reader makes progress or finishes
@@ -224,6 +242,17 @@ pub fn salt_of(writer_side: Side) -> u8 {
 fn log(rec: &Rec, net: &SimNet, side: Side, ev: AppEv) {
     let t_us = net.now_us();
     rec.lock().events.push(AppEvent { t_us, side, ev });
+}
+
+/// Waits (at most 60 s of virtual time) until no connection object is alive on this thread.
+async fn wait_all_dead() -> bool {
+    for _ in 0..1200 {
+        if librqbit_utp::verif::live_vsocks().is_empty() {
+            return true;
+        }
+        tokio::time::sleep(Duration::from_millis(50)).await;
+    }
+    false
 }
 
 pub async fn run_writer(mut w: Option<UtpStreamWriteHalf>, script: Vec<WOp>, side: Side, rec: Rec, net: Arc<SimNet>, salt: u8, hold: Arc<tokio::sync::Notify>) {
@@ -295,13 +324,37 @@ pub async fn run_writer(mut w: Option<UtpStreamWriteHalf>, script: Vec<WOp>, sid
                 }
             }
             WOp::Hold => hold_it = true,
+            WOp::ProbeAfterDeath => {
+                let dead = wait_all_dead().await;
+                log(&rec, &net, side, AppEv::ProbePhase { dead });
+                let Some(wh) = w.as_mut() else { break 'ops };
+                let one = [coded(pos, salt)];
+                match poll_fn(|cx| Pin::new(&mut *wh).poll_write(cx, &one)).await {
+                    Ok(k) => {
+                        rec.lock().accepted[idx(side)] += k as u64;
+                        log(&rec, &net, side, AppEv::WriteAccepted { off: pos, n: k });
+                        pos += k as u64;
+                    }
+                    Err(e) => log(&rec, &net, side, AppEv::WriteErr(e.to_string())),
+                }
+                log(&rec, &net, side, AppEv::FlushCalled);
+                match poll_fn(|cx| Pin::new(&mut *wh).poll_flush(cx)).await {
+                    Ok(()) => log(&rec, &net, side, AppEv::FlushOk),
+                    Err(e) => log(&rec, &net, side, AppEv::FlushErr(e.to_string())),
+                }
+                log(&rec, &net, side, AppEv::ShutdownCalled);
+                match poll_fn(|cx| Pin::new(&mut *wh).poll_shutdown(cx)).await {
+                    Ok(()) => log(&rec, &net, side, AppEv::ShutdownOk),
+                    Err(e) => log(&rec, &net, side, AppEv::ShutdownErr(e.to_string())),
+                }
+            }
             WOp::WaitRead(n) => {
                 let notify = rec.lock().read_progress[idx(side)].clone();
                 loop {
                     let fut = notify.notified();
                     {
                         let g = rec.lock();
-                        if g.read[idx(side)] >= n || g.reader_done[idx(side)] {
+                        if g.read[idx(side)] - g.cycle_read_base[idx(side)] >= n || g.reader_done[idx(side)] {
                             break;
                         }
                     }
@@ -340,6 +393,31 @@ pub async fn run_reader(mut r: Option<UtpStreamReadHalf>, script: Vec<ROp>, side
             }
             ROp::Hold => {
                 hold_it = true;
+                continue;
+            }
+            ROp::ProbeAfterDeath => {
+                let dead = wait_all_dead().await;
+                log(&rec, &net, side, AppEv::ProbePhase { dead });
+                let Some(rh) = r.as_mut() else { continue };
+                let mut b = [0u8; 16];
+                let res = poll_fn(|cx| {
+                    let mut rb = ReadBuf::new(&mut b);
+                    match Pin::new(&mut *rh).poll_read(cx, &mut rb) {
+                        Poll::Pending => Poll::Pending,
+                        Poll::Ready(Ok(())) => Poll::Ready(Ok(rb.filled().len())),
+                        Poll::Ready(Err(e)) => Poll::Ready(Err(e)),
+                    }
+                })
+                .await;
+                match res {
+                    Ok(0) => log(&rec, &net, side, AppEv::ReadEof { at: pos }),
+                    Ok(n) => {
+                        rec.lock().read[idx(side)] += n as u64;
+                        log(&rec, &net, side, AppEv::ReadGot { off: pos, n, ok: true, first_bad: None });
+                        pos += n as u64;
+                    }
+                    Err(e) => log(&rec, &net, side, AppEv::ReadErr(e.to_string())),
+                }
                 continue;
             }
         };
@@ -444,6 +522,8 @@ pub struct RunLog {
     pub trace_hash: u64,
     pub n_sends: usize,
     pub delivered: Vec<(u64, usize)>,
+    /// (t_us, created?, owner is A, conn_id_send) of connection objects
+    pub lifecycle: Vec<(u64, bool, bool, u16)>,
 }
 
 /// WireEvent without the raw bytes (payload bytes kept only for ST_DATA).
@@ -558,57 +638,88 @@ async fn run_async(scn: &Scenario, plan: &[(usize, Fate)], abort: &Abort) -> Run
     let hold = Arc::new(tokio::sync::Notify::new());
     let horizon = Duration::from_secs(scn.horizon_s);
 
+    let t0 = tokio::time::Instant::now();
     let body = async {
-        let acc = {
-            let sb = sb.clone();
-            tokio::spawn(async move { sb.accept().await })
-        };
-        let con = sa.connect(addr_b).await;
-        let stream_a = match con {
-            Ok(s) => {
-                log(&rec, &net, Side::A, AppEv::Connected);
-                Some(s)
+        let mut panic_msg = None;
+        for cycle in 0..scn.cycles.max(1) {
+            if scn.cycles > 1 {
+                log(&rec, &net, Side::A, AppEv::CycleStart(cycle));
             }
-            Err(e) => {
-                log(&rec, &net, Side::A, AppEv::ConnectErr(e.to_string()));
-                None
-            }
-        };
-        let stream_b = if stream_a.is_some() {
-            match acc.await {
-                Ok(Ok(s)) => {
-                    log(&rec, &net, Side::B, AppEv::Accepted);
+            let acc = {
+                let sb = sb.clone();
+                tokio::spawn(async move { sb.accept().await })
+            };
+            let con = if scn.cycles > 1 {
+                match tokio::time::timeout(Duration::from_secs(15), sa.connect(addr_b)).await {
+                    Ok(r) => r.map_err(|e| e.to_string()),
+                    Err(_) => Err("connect timed out after 15 s".to_string()),
+                }
+            } else {
+                sa.connect(addr_b).await.map_err(|e| e.to_string())
+            };
+            let stream_a = match con {
+                Ok(s) => {
+                    log(&rec, &net, Side::A, AppEv::Connected);
                     Some(s)
                 }
-                Ok(Err(e)) => {
-                    log(&rec, &net, Side::B, AppEv::AcceptErr(e.to_string()));
+                Err(e) => {
+                    log(&rec, &net, Side::A, AppEv::ConnectErr(e));
                     None
                 }
-                Err(e) => {
-                    log(&rec, &net, Side::B, AppEv::AcceptErr(format!("join: {e}")));
-                    None
+            };
+            let stream_b = if stream_a.is_some() {
+                match acc.await {
+                    Ok(Ok(s)) => {
+                        log(&rec, &net, Side::B, AppEv::Accepted);
+                        Some(s)
+                    }
+                    Ok(Err(e)) => {
+                        log(&rec, &net, Side::B, AppEv::AcceptErr(e.to_string()));
+                        None
+                    }
+                    Err(e) => {
+                        log(&rec, &net, Side::B, AppEv::AcceptErr(format!("join: {e}")));
+                        None
+                    }
+                }
+            } else {
+                acc.abort();
+                None
+            };
+            {
+                let mut g = rec.lock();
+                g.reader_done = [false; 2];
+                g.writer_done = [false; 2];
+                g.cycle_read_base = g.read;
+            }
+            let mut handles = vec![];
+            if let Some(s) = stream_a {
+                let (r, w) = s.split();
+                handles.push(tokio::spawn(run_writer(Some(w), scn.app_a.writer.clone(), Side::A, rec.clone(), net.clone(), salt_of(Side::A), hold.clone())));
+                handles.push(tokio::spawn(run_reader(Some(r), scn.app_a.reader.clone(), Side::A, rec.clone(), net.clone(), salt_of(other(Side::A)), hold.clone())));
+            }
+            if let Some(s) = stream_b {
+                let (r, w) = s.split();
+                handles.push(tokio::spawn(run_writer(Some(w), scn.app_b.writer.clone(), Side::B, rec.clone(), net.clone(), salt_of(Side::B), hold.clone())));
+                handles.push(tokio::spawn(run_reader(Some(r), scn.app_b.reader.clone(), Side::B, rec.clone(), net.clone(), salt_of(other(Side::B)), hold.clone())));
+            }
+            for h in handles {
+                if let Err(e) = h.await {
+                    if e.is_panic() {
+                        panic_msg = Some(format!("application task panicked: {e}"));
+                    }
                 }
             }
-        } else {
-            acc.abort();
-            None
-        };
-        let mut handles = vec![];
-        if let Some(s) = stream_a {
-            let (r, w) = s.split();
-            handles.push(tokio::spawn(run_writer(Some(w), scn.app_a.writer.clone(), Side::A, rec.clone(), net.clone(), salt_of(Side::A), hold.clone())));
-            handles.push(tokio::spawn(run_reader(Some(r), scn.app_a.reader.clone(), Side::A, rec.clone(), net.clone(), salt_of(other(Side::A)), hold.clone())));
-        }
-        if let Some(s) = stream_b {
-            let (r, w) = s.split();
-            handles.push(tokio::spawn(run_writer(Some(w), scn.app_b.writer.clone(), Side::B, rec.clone(), net.clone(), salt_of(Side::B), hold.clone())));
-            handles.push(tokio::spawn(run_reader(Some(r), scn.app_b.reader.clone(), Side::B, rec.clone(), net.clone(), salt_of(other(Side::B)), hold.clone())));
-        }
-        let mut panic_msg = None;
-        for h in handles {
-            if let Err(e) = h.await {
-                if e.is_panic() {
-                    panic_msg = Some(format!("application task panicked: {e}"));
+            if cycle + 1 < scn.cycles {
+                // the slot has to be free again within the release bound
+                let mut live = librqbit_utp::verif::live_vsocks().len();
+                let deadline = tokio::time::Instant::now() + Duration::from_micros(RELEASE_BOUND_US);
+                while live > 0 && tokio::time::Instant::now() < deadline {
+                    tokio::time::sleep(Duration::from_millis(50)).await;
+                    live = librqbit_utp::verif::live_vsocks().len();
+                }
+                if live > 0 {
+                    log(&rec, &net, Side::A, AppEv::CycleLeak { live });
                 }
             }
         }
@@ -617,6 +728,7 @@ async fn run_async(scn: &Scenario, plan: &[(usize, Fate)], abort: &Abort) -> Run
 
     let mut out = RunLog::default();
     let mut app_panic = None;
+    let horizon = horizon * scn.cycles.max(1) as u32;
     match tokio::time::timeout(horizon, body).await {
         Ok(p) => {
             out.apps_finished = true;
@@ -683,11 +795,20 @@ async fn run_async(scn: &Scenario, plan: &[(usize, Fate)], abort: &Abort) -> Run
         out.read = r.read;
     }
     out.panicked = app_panic;
+    out.lifecycle = librqbit_utp::verif::vsock_lifecycle()
+        .into_iter()
+        .map(|(t, created, remote, cid)| (t.saturating_duration_since(t0.into_std()).as_micros() as u64, created, remote == addr_b, cid))
+        .collect();
     out.trace_hash = trace_hash(&out);
     drop(sa);
     drop(sb);
     out
 }
+
+/// bound for "the background task ends / the slot is released within a bounded time" after the
+/// application let go: inactivity timeout (configured 3 s in C08 scenarios) + RTO back-off sum for 5
+/// retransmissions (6.2 s) + 1 s final chance + 1 s slack
+pub const RELEASE_BOUND_US: u64 = 3_000_000 + 6_200_000 + 1_000_000 + 1_000_000;
 
 /// seconds of virtual time a run may take to wind down after the applications finished
 pub const SETTLE_S: u64 = 120;
